@@ -729,6 +729,47 @@ func (r *Runner) exec(op map[string]any) (string, error) {
 			return "err", nil
 		}
 		return "ok", nil
+	case "SnapshotCut":
+		// the process dies inside SaveSnapshot after the rename of the image and before the truncation of the log;
+		// the restart reads the new image and the complete old log, and the behaviour carries on from there
+		img := r.Dir + "-img"
+		os.RemoveAll(img)
+		var imgErr error
+		taken := false
+		verifhook.Set(func(name string, kv []any) {
+			if r.ExtraHook != nil {
+				r.ExtraHook(name, kv)
+			}
+			if name == "snap.renamed" && !taken {
+				taken = true
+				imgErr = exec.Command("cp", "-a", "--sparse=always", r.Dir, img).Run()
+			}
+		})
+		serr := e.SaveSnapshot()
+		verifhook.Set(nil)
+		if serr != nil {
+			os.RemoveAll(img)
+			return res(serr)
+		}
+		if !taken || imgErr != nil {
+			return "", fmt.Errorf("SnapshotCut: no image at snap.renamed (%v)", imgErr)
+		}
+		cerr := e.Close()
+		r.E = nil
+		if cerr != nil {
+			return "", fmt.Errorf("close: %w", cerr)
+		}
+		if err := os.RemoveAll(r.Dir); err != nil {
+			return "", err
+		}
+		if err := os.Rename(img, r.Dir); err != nil {
+			return "", err
+		}
+		if err := r.open(); err != nil {
+			r.LastErr = err.Error()
+			return "err", nil
+		}
+		return "ok", nil
 	case "VSetMetadata":
 		if str(op, "k") == "_access_count" {
 			// a caller-written counter (migrated data): the value is the number itself, handed over in
